@@ -457,11 +457,50 @@ def isInFilter : E → Bool
   | .bin op (.col _ _) (.param _) => op = "in"
   | _ => false
 
-/-- the WHERE-derived conditions `process_table` uses -/
+inductive Item where
+  | operand (i : Nat)
+  | join (k : Nat)        -- the Join whose right operand is operand k
+deriving Repr
+
+/-- `get_join_sequence` for a left-deep join of `n` operands + the model-first swap -/
+def joinSeqFrom (n : Nat) (k : Nat) : List Item :=
+  match n with
+  | 0 => []
+  | n + 1 => [.operand k, .join k] ++ joinSeqFrom n (k + 1)
+
+def joinSeq (ops : List Operand) : List Item :=
+  match ops with
+  | [] => []
+  | [a, _] => if a.kind = .mod then [.operand 1, .operand 0, .join 1] else [.operand 0, .operand 1, .join 1]
+  | _ => .operand 0 :: joinSeqFrom (ops.length - 1) 1
+
+/-- `mark_nullable_tables`: operands whose rows can be replaced by NULLs in the join result — the right operand
+of a LEFT / FULL join, everything joined before a RIGHT / FULL join (`seen` = operands met so far) -/
+def markNullable (ops : List Operand) : List Item → List Nat → List Nat → List Nat
+  | [], _, acc => acc
+  | .operand i :: rest, seen, acc => markNullable ops rest (seen ++ [i]) acc
+  | .join k :: rest, seen, acc =>
+    let kind := lower (firstWord (ops.getD k default).jtype)
+    let acc1 := if kind = "left" ∨ kind = "full" then acc ++ seen.getLast?.toList else acc
+    let acc2 := if kind = "right" ∨ kind = "full" then acc1 ++ seen.dropLast else acc1
+    markNullable ops rest seen acc2
+
+def isNullable (ops : List Operand) (j : Nat) : Bool := (markNullable ops (joinSeq ops) [] []).contains j
+
+/-- `filter_accepts_null`: `col IS NULL` is true for the NULLs an outer join puts in place of a missing row -/
+def acceptsNull : E → Bool
+  | .bin op _ _ => op = "is"
+  | _ => false
+
+/-- the WHERE-derived conditions `process_table` / `process_subselect` use: none when `or` occurs; on the
+null-supplying side of an outer join no `IS` condition -/
 def whereFilters (ops : List Operand) (j : Nat) (w : Option E) : List E :=
   match w with
   | none => []
-  | some w => if (opsOf w).contains "or" then [] else conditionsOf ops j w
+  | some w =>
+    if (opsOf w).contains "or" then []
+    else if isNullable ops j then (conditionsOf ops j w).filter (fun c => !acceptsNull c)
+    else conditionsOf ops j w
 
 /-- `prepare_integration_select` on the fetch query: a leading integration name is cut from an identifier,
 unless the identifier has just two parts and the name is also a table alias of that query -/
@@ -480,7 +519,9 @@ def cutDb (db : String) (locals : List String) : E → E
 def processTable (ops : List Operand) (j : Nat) (w : Option E) (st : St) : St :=
   let o := ops.getD j default
   let (st1, fs) := onFilters ops j o.on st
-  let locals := match o.alias with | some a => [lower (a.getLast?.getD "")] | none => []
+  let locals := match o.alias with
+    | some a => [lower (a.getLast?.getD "")]
+    | none => [lower (o.parts.getLast?.getD "")]      -- an unaliased table is referred to by its own name
   let (st2, r) := addPlanStep st1 (.fetch j ((andAll (whereFilters ops j w ++ fs)).map (cutDb o.integ locals)))
   { st2 with stack := r :: st2.stack, fetched := (j, r) :: st2.fetched }
 
@@ -526,23 +567,6 @@ def onAfter (ops : List Operand) (k : Nat) : Option E :=
   match o.kind with
   | .mod => o.on.map (neut (mapped ops k))
   | _ => o.on
-
-inductive Item where
-  | operand (i : Nat)
-  | join (k : Nat)        -- the Join whose right operand is operand k
-deriving Repr
-
-/-- `get_join_sequence` for a left-deep join of `n` operands + the model-first swap -/
-def joinSeqFrom (n : Nat) (k : Nat) : List Item :=
-  match n with
-  | 0 => []
-  | n + 1 => [.operand k, .join k] ++ joinSeqFrom n (k + 1)
-
-def joinSeq (ops : List Operand) : List Item :=
-  match ops with
-  | [] => []
-  | [a, _] => if a.kind = .mod then [.operand 1, .operand 0, .join 1] else [.operand 0, .operand 1, .join 1]
-  | _ => .operand 0 :: joinSeqFrom (ops.length - 1) 1
 
 def processItem (ops : List Operand) (w : Option E) (using? : Option (List (String × String)))
     (st : St) : Item → Except Err St
